@@ -194,13 +194,8 @@ Proof.
     destruct (redraw_into_sup st (set_curpos c1 (sCurX st) (sCurY st)) _ HW HH Ha) as [Hb _].
     split; [exact Hb|]. apply redraw_into_in; try assumption. apply redraw_into_in; assumption. }
   destruct HU3c as [HU3c HU3cin].
-  assert (HU4 : WF (coalesce16 st (rgn_count UC) U3c) /\
-                forall x y, rgn_mem (coalesce16 st (rgn_count UC) U3c) x y = true -> inS (sW st) (sH st) x y).
-  { assert (HU4a : WF (coalesce st U3c) /\ forall x y, rgn_mem (coalesce st U3c) x y = true -> inS (sW st) (sH st) x y).
-    { unfold coalesce. destruct ((sMaxRects st >? 0) && (rgn_count U3c >? sMaxRects st)); [|auto].
-      split; [wf|]. apply bbox_inside; assumption. }
-    destruct HU4a as [Ha Hb]. unfold coalesce16. cbv zeta.
-    destruct (rgn_count UC + rgn_count (coalesce st U3c) + 6 >=? 65535); [|auto].
+  assert (HU4 : WF (coalesce st U3c) /\ forall x y, rgn_mem (coalesce st U3c) x y = true -> inS (sW st) (sH st) x y).
+  { unfold coalesce. destruct ((sMaxRects st >? 0) && (rgn_count U3c >? sMaxRects st)); [|auto].
     split; [wf|]. apply bbox_inside; assumption. }
   destruct HU4 as [HU4 HU4in].
   rewrite Hpw, Hph.
@@ -253,7 +248,7 @@ Proof.
   assert (HU3 : WF U3) by (unfold U3; wf).
   destruct (soft_cursor st _ U3) as [c2 U3c] eqn:Esoft.
   destruct (soft_cursor_spec _ _ _ _ _ HW HH HU3 Esoft) as (HU3c & _).
-  destruct (coalesce16_spec st (rgn_count UC) U3c HU3c) as [HU4 _].
+  destruct (coalesce_spec st U3c HU3c) as [HU4 _].
   match type of Hs with (if ?cond then _ else _) = _ => destruct cond eqn:Echeck end; [|discriminate].
   inversion Hs; subst c' n rects. clear Hs.
   apply andb_true_iff in Echeck. destruct Echeck as [Echeck E4].
